@@ -106,8 +106,20 @@ def files(ctx: Ctx):
             ctx.violation('control', 'comparator accepted a perturbed oligo', broken='negative control', no_input=True)
 
 
+C01_BG_KINDS = ('row_extra', 'row_missing', 'row_columns:mseq', 'row_columns:mseq_no_adapt', 'row_columns:ref', 'row_columns:new',
+                'row_columns:oligo_length', 'pam_seq', 'ref_seq', 'background_seq', 'refused')
+
+
+def bg_accept(kind: str, what: str) -> bool:
+    return kind.startswith(C01_BG_KINDS)
+
+
 def run(ctx: Ctx):
     files(ctx)
+    # with background variants the template is the background sequence and reported positions are REF coordinates: the row law is
+    # checked through the relation with the same design on the pre-edited genome (C06's metamorphic pair), on the oligo columns
+    from . import c06
+    c06.background_stage(ctx, ctx.n(50, 500), bg_accept)
     return {'rule': 'S-file: random SGE designs (both strands, soft-masked references, adaptors, revcomp / no-op flags, PAM edits, custom variants of every kind, '
                     'every mutator) and cDNA designs: every metadata row (included, excluded, no-op) checked by an independent oracle (ref at template position, oligo = '
                     'template with ref->new, orientation, adaptors, length, ref_seq = upper-cased FASTA, pam_seq = reference with the applicable edits) and compared with '
@@ -119,6 +131,14 @@ def replay(ctx: Ctx, path: str) -> int:
         v = json.load(fh)
     c = v.get('case', {})
     ctx.known = []
+    if c.get('via') == 'background_pair':
+        from . import c06
+        common.use_repo()
+        if c06.replay_background(ctx, c, bg_accept):
+            print(f'VIOLATION property=C01 replay={path}')
+            return 1
+        print('replay: property holds on this input now')
+        return 0
     if 'design' not in c:
         print('replay: obligation-only replay file')
         return 0
